@@ -226,10 +226,10 @@ func c09Plan(tier string) []c09Phase {
 		l2 := append(sharedOnly(l2Blocks(3, 5, 2)), four(2)...)
 		l2 = append(l2, four(3)...)
 		return []c09Phase{
-			l1Phase("L1 k=2 P<=2 (all scheduling points)", 2, false, k2),
-			l1Phase("L1 k=2 retry/empty-root and k=3 P<=2 (release operations not preemptible)", 2, true, k2r, k3one),
 			l2Phase("L2 two-transaction blocks P<=2", 2, l2Blocks(2, 7, 2)),
 			l2Phase("L2 three/four-transaction blocks P<=1", 1, l2),
+			l1Phase("L1 k=2 P<=2 (all scheduling points)", 2, false, k2),
+			l1Phase("L1 k=2 retry/empty-root and k=3 P<=2 (release operations not preemptible)", 2, true, k2r, k3one),
 		}
 	}
 	var l2a, l2b, l2c []l2Block
@@ -240,10 +240,10 @@ func c09Plan(tier string) []c09Phase {
 		l2c = append(l2c, sharedOnly(l2Blocks(3, 5, c))...)
 	}
 	return []c09Phase{
-		l1Phase("L1 k=2 P<=3 (all scheduling points)", 3, false, k2, k2r),
-		l1Phase("L1 k=3 P<=2 (release operations not preemptible)", 2, true, k3),
 		l2Phase("L2 two-transaction blocks P<=2", 2, l2a),
 		l2Phase("L2 three/four-transaction blocks P<=1", 1, l2b),
+		l1Phase("L1 k=2 P<=3 (all scheduling points)", 3, false, k2, k2r),
+		l1Phase("L1 k=3 P<=2 (release operations not preemptible)", 2, true, k3),
 		l1Phase("L1 k=3 one-step P<=3 (release operations not preemptible)", 3, true, k3one),
 		l2Phase("L2 three-transaction blocks P<=2", 2, l2c),
 	}
